@@ -1,5 +1,6 @@
 import Driver.Util
 import ZvbiModel.Slicer.Model
+import ZvbiModel.Slicer.BufModel
 /-!
 # Model driver for component `slicer` (C05) - same line protocol as harness/slicer_harness.c
 -/
@@ -129,12 +130,70 @@ def opSlice (args : List String) : String :=
     | _, _, _, _, _ => "rej parse"
   | _ => "rej parse"
 
+/-- the public entry points with caller-sized arrays:
+    <14 set_params fields> sig shift trunc seed which(s|p) bufferSize maxPoints claim ticks [asan]
+    `claim` = outcome of the search, `ticks` = number of CRI points the real code stored (both observed by the
+    harness: the image is not modelled); the model checks the tick count against the number of `CRI()` invocations
+    (and the room in the array, for the bounded version) and predicts refusal, bytes stored, `*n_points` and points stored -/
+def opBSlice (args : List String) : String :=
+  match args with
+  | fmt :: rate :: offset :: spl :: cri :: mask :: criBits :: criRate :: criEnd :: frc :: frcBits :: payloadBits
+      :: payloadRate :: modulation :: sig :: shift :: trunc :: seed :: which :: bufsize :: maxpoints :: claim :: ticks :: rest =>
+    if rest != [] && rest != ["asan"] then "rej parse" else
+    match nums [fmt, rate, offset, spl, criBits, criRate, criEnd, frcBits, payloadBits, payloadRate, modulation],
+          nums [cri, mask, frc], parseInt shift, parseInt trunc, parseInt seed, nums [bufsize, maxpoints] with
+    | some ns, some [cri, mask, frc], some _, some _, some _, some [bufsize, maxpoints] =>
+      if cri > u32max ∨ mask > u32max ∨ frc > u32max ∨ bufsize > 100000 ∨ maxpoints > 1000000
+         ∨ (which != "s" && which != "p") then "rej parse" else
+      match mkParams ns with
+      | none => "rej parse"
+      | some (p, known) =>
+        match configure p known with
+        | .error r => r
+        | .ok c =>
+          if !sigOk sig then "rej parse" else
+          if cfgWrapped c then "ok wrapped" else
+          match parseOutcome claim, parseNat ticks with
+          | some oc, some t =>
+            let adm : Bool := match oc with
+              | .noCri => true
+              | .frcFail k => decide (k < c.criSamples)
+              | .found k => decide (k < c.criSamples)
+            if !adm then "ok bad-claim" else
+            let withPoints := which == "p"
+            let tail := s!"buf={bufsize}"
+            let zero (r : String) := s!"ok {showOutcome oc} ref={r} ret=0 wr=0 {tail} ticks=0 np=0 pw=0 mp={maxpoints}"
+            let g := repoGuard withPoints
+            if guardRefuses g c bufsize then zero "b" else
+            let r := slice g c bufsize oc
+            let ret := if r.ret then 1 else 0
+            let wr := need r.writes
+            if !withPoints then
+              s!"ok {showOutcome oc} ref=0 ret={ret} wr={wr} {tail} ticks=0 np=0 pw=0 mp={maxpoints}"
+            else
+              let total := p.criBits + p.frcBits + p.payloadBits
+              let collects := c.kind == .lowpass || p.fmt == fmtY8
+              let bounded := repoPointsBounded c
+              -- at most one point per `CRI()` invocation executed; bounded: at most the room beside the data bits
+              let inv := match oc with
+                | .noCri => oversampling c * c.criSamples
+                | .frcFail k => oversampling c * (k + 1)
+                | .found k => oversampling c * (k + 1)
+              if total > maxpoints then zero "p" else
+              if t > inv ∨ (!collects ∧ t ≠ 0) ∨ (bounded ∧ t > maxpoints - c.nBits) then "ok bad-claim" else
+              let pr := slicePoints bounded c total maxpoints collects oc (List.replicate t true)
+              let tk := if collects then t else 0
+              s!"ok {showOutcome oc} ref=0 ret={ret} wr={wr} {tail} ticks={tk} np={pr.nPoints} pw={need pr.writes} mp={maxpoints}"
+          | _, _ => "ok bad-claim"
+    | _, _, _, _, _, _ => "rej parse"
+  | _ => "rej parse"
+
 /-- fmt rawSamples rate criRate bitRate criFrc criMask criBits frcBits payload modulation -/
 def mkLParams : List Nat → Option (Except String LParams)
   | [fmt, rawSamples, rate, criRate, bitRate, criFrc, criMask, criBits, frcBits, payload, modulation] =>
     if rawSamples > 0x7FFFFFFF ∨ rate > 0x7FFFFFFF ∨ criRate > 0x7FFFFFFF ∨ bitRate > 0x7FFFFFFF ∨ criFrc > u32max
        ∨ criMask > u32max ∨ payload > 0x7FFFFFFF ∨ modulation > 3 ∨ fmt > 1000 ∨ criBits > 0x7FFFFFFF ∨ frcBits > 0x7FFFFFFF then none
-    else if criBits < 1 ∨ criBits > 32 ∨ frcBits < 1 ∨ frcBits > 31 ∨ payload > 32767 then some (.error "rej assert")
+    else if criBits > 32 ∨ frcBits > 31 ∨ payload > 32767 then some (.error "rej assert")
     else if criRate = 0 ∨ bitRate = 0 then some (.error "rej div0")
     else if (128 * rate) / criRate + (128 * rate) / bitRate + 130 ≥ 0x7FFFFFFF ∨ (256 * rate) / bitRate ≥ 0x7FFFFFFF
             ∨ (rate * (payload + frcBits)) / bitRate ≥ 0x7FFFFFFF then some (.error "rej range")
@@ -250,6 +309,7 @@ def step (_ : Unit) (ws : List String) : Unit × String :=
     match ws with
     | "params" :: args => opParams args
     | "slice" :: args => opSlice args
+    | "bslice" :: args => opBSlice args
     | "lparams" :: args => opLParams args
     | "lslice" :: args => opLSlice args
     | "decode" :: args => opDecode args
